@@ -132,6 +132,14 @@ Clone ==
   /\ phase \in {"Inited", "Done"}
   /\ UNCHANGED vars
 
+\* the caller replaces the constraints of its parameters between two runs of the same optimiser object
+\* (same coordinates, other intervals); ia: the new intervals contain the minimiser strictly
+Rebox(b, ia) ==
+  /\ phase \in {"New", "Inited", "Done"}
+  /\ Len(b) = Len(box)
+  /\ box' = b /\ obj' = [obj EXCEPT !.inact = ia]
+  /\ UNCHANGED <<phase, pol, max, cnt, steps, tol, s0, held, pend, lo, touched, back, rep, br, Flags>>
+
 \* manual step(): no budget applies
 MStepBegin ==
   /\ phase \in {"Inited", "Done"}
@@ -171,7 +179,7 @@ Finish(r, ret, fv, re, feas, nb, t, q) ==
   /\ phase = "Running"
   /\ IF r = "ok"
      THEN /\ phase' = "Done"
-          /\ rep' = [ret |-> ret, fv |-> fv, re |-> re, feas |-> feas, nb |-> nb, tol |-> t, q |-> q]
+          /\ rep' = [ret |-> ret, fv |-> fv, re |-> re, feas |-> feas, fok |-> FeasPoint(feas), nb |-> nb, tol |-> t, q |-> q]
           /\ UNCHANGED badRaise
      ELSE /\ phase' = "Dead"
           /\ rep' = NoRep
@@ -216,7 +224,7 @@ Budget == /\ ~overrun
 
 \* automatic-constraint policy: never evaluated outside the constraints, reported point feasible
 FeasibleAlways == pol = "auto" => /\ ~infeas
-                                  /\ HasRep => FeasPoint(rep.feas)
+                                  /\ HasRep => rep.fok      \* judged against the constraints in force during that run
 
 \* strictly convex quadratic, no constraint active (the minimiser is strictly inside and, unless the
 \* policy drops the constraints, no evaluation since init came within a precision step of a bound),
@@ -274,6 +282,7 @@ DEval      == /\ pend < MaxInner
 DInitEnd   == \/ InitEnd("ok")
               \/ pol = "keep" /\ Constrained /\ InitEnd("raise:ConstraintException")
 DOptEarly  == OptEarly("raise:Exception")
+DRebox     == \E b \in Boxes : Rebox(b, obj.inact)
 DOptBegin  == OptBegin(held)
 \* the loop guard of optimize(); the step accepts the best value it evaluated only if it improves
 DStep      == /\ phase = "Running" => (cnt + 1 < max /\ ~tol)
@@ -295,7 +304,7 @@ DBracket   == \E xs \in [1..3 -> 0..2], fs \in [1..3 -> Ranks] :
                  /\ MiddleLowest([x |-> xs, f |-> fs])
                  /\ Bracket("ok", <<xs[1], xs[2], xs[3]>>, <<fs[1], fs[2], fs[3]>>)
 
-Next == \/ DOptEarly \/ DInitBegin \/ DEval \/ DInitEnd \/ Clone \/ MStepBegin \/ DMStepEnd
+Next == \/ DOptEarly \/ DRebox \/ DInitBegin \/ DEval \/ DInitEnd \/ Clone \/ MStepBegin \/ DMStepEnd
         \/ DOptBegin \/ DStep \/ DFinish \/ DRaise \/ BrBegin \/ DBracket
 
 \* the loop makes progress whenever it can: every optimize() ends
